@@ -4,6 +4,7 @@
 package main
 
 import (
+	"encoding/json"
 	"flag"
 	"fmt"
 	"os"
@@ -22,6 +23,20 @@ type ctx struct {
 	res    *hx.Result
 	replay string
 	tmp    string
+	jpath  string // journal: the case in flight, for the driver script to read if this process dies
+}
+
+// inflight records the case that is about to be handed to the implementation. The stages of the
+// real server have no recover(): a panic in one of their goroutines kills this process, exactly
+// as it would kill the server. ./check then reports the journal as the failing input.
+func (c *ctx) inflight(engine string, v any) {
+	if c.jpath == "" {
+		return
+	}
+	b, err := json.Marshal(map[string]any{"engine": engine, "case": v})
+	if err == nil {
+		os.WriteFile(c.jpath, b, 0o644)
+	}
 }
 
 func (c *ctx) thorough() bool { return c.tier == "thorough" }
@@ -57,7 +72,7 @@ func main() {
 		os.Exit(2)
 	}
 	c := &ctx{prop: *prop, tier: *tier, seed: *seed, rng: hx.NewRng(*seed), lean: lean,
-		res: hx.NewResult(*prop, *engine, *seed, *tier), replay: *replay, tmp: *tmp}
+		res: hx.NewResult(*prop, *engine, *seed, *tier), replay: *replay, tmp: *tmp, jpath: *out + ".journal"}
 	if err := fn(c); err != nil {
 		fmt.Fprintf(os.Stderr, "engine %s: %v\n", *engine, err)
 		os.Exit(2)
